@@ -91,6 +91,11 @@ type liveQuery struct {
 	filter  sqlgen.Filter
 	desc    string
 	single  bool
+	// viaDep: the computation re-registers a serialised dependency
+	// (FilterToProto -> FilterFromProto -> LiveDB.AddDependency) and reads
+	// through the plain, non-live handle, as a server that restores
+	// dependencies recorded earlier does
+	viaDep  bool
 	runs    int
 	lastIDs string
 	lastErr string
@@ -116,6 +121,7 @@ func liveBody(c *runner.Ctx) {
 	}
 	nextID := int64(50)
 	ldb := livesql.NewLiveDB(sqlgen.NewDB(conn, schema))
+	plain := sqlgen.NewDB(conn, schema) // non-live reads of computations that restore a serialised dependency
 	streamer, evCh, errCh := newStreamer()
 	bl := livesql.NewBinlogForVerif(ldb, "testdb", streamer)
 	logErrors := 0
@@ -214,7 +220,7 @@ func liveBody(c *runner.Ctx) {
 	var queries []*liveQuery
 	for i := 0; i < nQ; i++ {
 		f, desc := genFilter(c, 2)
-		q := &liveQuery{idx: i, filter: f, desc: desc, single: c.Choose(5, "query-row") == 0}
+		q := &liveQuery{idx: i, filter: f, desc: desc, single: c.Choose(5, "query-row") == 0, viaDep: c.Choose(5, "via-serialised-dependency") == 1}
 		queries = append(queries, q)
 		batched := c.Choose(2, "batched") == 1
 		c.Describe("live query %d filter %s row=%v batched=%v", i, desc, q.single, batched)
@@ -245,7 +251,32 @@ func liveBody(c *runner.Ctx) {
 		runQuery := func(ctx context.Context, q *liveQuery) error {
 			var rows []*User
 			var err error
-			if q.single {
+			if q.viaDep {
+				c.Probe("dependency-restored-from-its-serialised-form")
+				p, perr := livesql.FilterToProto(schema, "users", q.filter)
+				if perr != nil {
+					c.Violate("dependency-not-serialisable", "FilterToProto(%s): %v", q.desc, perr)
+					return perr
+				}
+				tname, f2, perr := livesql.FilterFromProto(schema, p)
+				if perr != nil {
+					c.Violate("dependency-not-restorable", "FilterFromProto(%s): %v", q.desc, perr)
+					return perr
+				}
+				if perr := ldb.AddDependency(ctx, livesql.QueryDependency{Table: tname, Filter: f2}); perr != nil {
+					c.Violate("dependency-not-restorable", "AddDependency(%s): %v", q.desc, perr)
+					return perr
+				}
+				if q.single {
+					var u *User
+					err = plain.QueryRow(context.Background(), &u, q.filter, nil)
+					if u != nil {
+						rows = []*User{u}
+					}
+				} else {
+					err = plain.Query(context.Background(), &rows, q.filter, nil)
+				}
+			} else if q.single {
 				var u *User
 				err = ldb.QueryRow(ctx, &u, q.filter, nil)
 				if u != nil {
